@@ -207,12 +207,31 @@ Definition run_poison (x : sx) : sx :=
   | _ => err "bad case"
   end.
 
+(* leg vanish: case ( behaviour when #request_frame ), behaviour = close | reset | half_close, when = immediately |
+   after_started.  Four connections each carry one complete well-formed Compile request (warm-up, bystander, the
+   peer that goes away, a later client).  What a peer does with ITS end after its request is complete is not an
+   input of the server's state (C11_connection_isolation: bytes only; C11_only_shutdown_stops_the_server): the
+   server stays up, counts four compile requests, serves the others; the peer itself can still read both answers
+   iff it only half-closed.  Output ( alive compile_requests bystander later peer_saw ). *)
+Definition run_vanish (x : sx) : sx :=
+  match x with
+  | SL [beh; w; SB fr] =>
+      let s := srv_run 8388608 [(1, fr); (2, fr); (3, fr); (4, fr)] in
+      let n := fold_left (fun acc i => acc + N.of_nat (length (filter (fun r => match r with ReqCompile _ _ _ _ => true | _ => false end)
+                                                                     (c_reqs (srv_get s i))))) [1; 2; 3; 4] 0 in
+      SL [ sbool (negb (srv_shutdown s)); SN n; sym "served"; sym "served";
+           if is_sym "half_close" beh then sym "both"
+           else if is_sym "after_started" w then sym "started" else sym "none" ]
+  | _ => err "bad case"
+  end.
+
 Definition dispatch (leg : list N) (x : sx) : sx :=
   if bytes_eqb leg (bs "client") then run_client x
   else if bytes_eqb leg (bs "decode_resp") then enc_response (decode_response opq0 (get_B x))
   else if bytes_eqb leg (bs "decode_req") then enc_request (decode_request (get_B x))
   else if bytes_eqb leg (bs "server") then run_server x
   else if bytes_eqb leg (bs "kill") then run_kill x
+  else if bytes_eqb leg (bs "vanish") then run_vanish x
   else if bytes_eqb leg (bs "coldstart") then run_coldstart x
   else if bytes_eqb leg (bs "poison") then run_poison x
   else err "unknown leg".
